@@ -17,7 +17,7 @@ Expected(e) ==
     [] e.op = "PlainDateTime.add" -> OutJ(AddDT(In(e.args.recv), e.args.dur, Ovf(e.args)))
     [] e.op = "PlainDateTime.subtract" -> OutJ(SubDT(In(e.args.recv), e.args.dur, Ovf(e.args)))
     [] e.op = "PlainDateTime.round" -> OutJ(RoundDT(In(e.args.recv), St(e).smallest, St(e).inc, St(e).mode))
-    [] e.op \in {"PlainDate.toPlainDateTime", "PlainDateTime.fromDateAndTime"} -> OutJ(DTNew(DT(e.args.recv, e.args.time)))
+    [] e.op \in {"PlainDate.toPlainDateTime", "PlainDateTime.fromDateAndTime", "PlainDateTime.withTime"} -> OutJ(DTNew(DT(e.args.recv, e.args.time)))
     [] e.op = "PlainDate.epochNsUtc" -> IF DFC(e.args.recv) > MinDay THEN Ok(Mul(DayNsBig, FromInt(DFC(e.args.recv)))) ELSE ErrRange
     [] e.op = "Instant.new" -> InstantNew(e.args.ns)
     [] e.op = "ZonedDateTime.new" -> InstantNew(e.args.ns)
@@ -31,7 +31,7 @@ Expected(e) ==
 WellFormedOut(e) ==
   e.out.kind # "ok" \/
   CASE e.op \in {"PlainDate.new", "PlainDate.add", "PlainDate.subtract"} -> ValidDate(e.out.val) /\ InDateRange(DFC(e.out.val))
-    [] e.op \in {"PlainDateTime.new", "PlainDateTime.add", "PlainDateTime.subtract", "PlainDateTime.round", "PlainDate.toPlainDateTime", "PlainDateTime.fromDateAndTime"} ->
+    [] e.op \in {"PlainDateTime.new", "PlainDateTime.add", "PlainDateTime.subtract", "PlainDateTime.round", "PlainDate.toPlainDateTime", "PlainDateTime.fromDateAndTime", "PlainDateTime.withTime"} ->
          ValidDT(In(e.out.val)) /\ InDTRange(In(e.out.val))
     [] e.op \in {"Instant.new", "ZonedDateTime.new", "Instant.add", "Instant.subtract", "Instant.round", "Instant.fromEpochMs", "PlainDate.epochNsUtc"} -> IsBig(e.out.val) /\ InInstantRange(e.out.val)
     [] e.op \in {"Duration.new", "Duration.add"} -> ValidDur(e.out.val)
